@@ -55,7 +55,7 @@ def draw_once(ctx, pid):
         for bi, st, pl, rhs in q.stores(f):
             if norm(pl) == norm(cell) and unset_at(bi) and draw_e is not None:
                 r = strip_refs(rhs)
-                if r[0] == 'bin' and r[1] == 'Add' and is_const(r[3], 1) and strip_refs(r[2]) == draw_e:
+                if r[0] == 'bin' and r[1] == 'Add' and ((is_const(r[3], 1) and strip_refs(r[2]) == draw_e) or (is_const(r[2], 1) and strip_refs(r[3]) == draw_e)):
                     stored = True
                 if r[0] == 'agg' and r[1].endswith('Option::Some') and r[2] and strip_refs(r[2][0]) == draw_e:
                     stored = True
@@ -88,10 +88,12 @@ def distributions(ctx, pid):
         ok = False
         detail = facts.show(r)[:100]
         if r[0] == 'agg' and 'SampledChance' in r[1]:
-            idx = r[2][0]
-            w = q.find_sub(idx, lambda s: s[0] == 'call' and 'WeightedAliasIndex' in s[1] and short(s[1]) == 'new')
+            # whichever field holds the table (fields may be renamed / reordered): one operand is the alias table over
+            # the parameter, another the unset cache value
+            tabs = [x for x in r[2] if q.find_sub(x, lambda s: s[0] == 'call' and 'WeightedAliasIndex' in s[1] and short(s[1]) == 'new') is not None]
+            w = q.find_sub(tabs[0], lambda s: s[0] == 'call' and 'WeightedAliasIndex' in s[1] and short(s[1]) == 'new') if len(tabs) == 1 else None
             src = q.find_sub(w, lambda s: s[0] == 'param') if w else None
-            ok = w is not None and src is not None and src[1] == 1 and any(is_unset_value(x) for x in r[2][1:])
+            ok = w is not None and src is not None and src[1] == 1 and any(is_unset_value(x) for x in r[2] if x is not tabs[0])
         ctx.verdict(ok, rule, rule + ':chance-alias-table', 'the chance sampler is an alias table over exactly the weights it is given, and starts unset (cached = 0)', f.where(0), detail,
                     breaks='chance outcomes are not drawn proportionally to the declared weights')
     # every SampledChance::new call site passes the infoset's probs()
@@ -216,10 +218,14 @@ def loop_events(f, blocks):
         if t['t'] != 'call' or short(t['callee'].get('path') or t['callee'].get('def') or '') != 'next' or not t['args']:
             continue
         ty = arg_ty(f, t, 0)
-        if 'IterMut' not in ty:
-            continue
-        calls = {short(p) for bi, tt, p in f.calls() if bi in body and bi != h}
         e = f.call_expr(t, h)
+        if 'IterMut' not in ty:
+            # an opaque iterator type (`impl IntoIterator` of an inlined helper, an adaptor): look at what it iterates
+            if q.find_sub(e, lambda x: q.is_call(x, 'iter_mut')) is None:
+                continue
+            roots = [x for x in facts.walk(e) if x[0] in ('param', 'var') and x[1] < len(f.locals)]
+            ty = ty + ' IterMut ' + ' '.join(f.locals[x[1]]['ty'] for x in roots)
+        calls = {short(p) for bi, tt, p in f.calls() if bi in body and bi != h}
         if any(x in ty for x in CHANCE_TYS) and calls & {'advance', 'reset'}:
             out.append((h, 'R:chance', e))
         elif any(x in ty for x in PLAYER_TYS) and 'advance' in calls:
